@@ -4,6 +4,13 @@
 
 package x509
 
+// ErrVerifNoSCTList is what a harness's transformation stand-in answers for a TBS it refuses.
+var ErrVerifNoSCTList = verifErr("x509: SCT list extension absent or present twice")
+
+type verifErr string
+
+func (e verifErr) Error() string { return string(e) }
+
 // Cuts of certificate parsing and of the TBS transformation as seen from package ct
 // (serialization.go): results are chosen by the harness, arguments recorded. The
 // transformation itself is C03's subject, the parser C11's.
